@@ -21,10 +21,36 @@ class _Return(Exception):
 
 
 class _Unknown(Exception):
-    pass
+    def __init__(self, at: ast.AST | None = None) -> None:
+        self.at = at
 
 
-def eval_function(folder: Folder, fi: FuncInfo, args: dict[str, Any], max_steps: int = 500, on_unknown: Any = None, env_out: dict | None = None) -> Any:
+class _Raise(Exception):
+    def __init__(self, stmt: ast.Raise) -> None:
+        self.stmt = stmt
+
+
+class Raised:
+    """outcome of an evaluation that ended in a `raise` statement"""
+
+    def __init__(self, stmt: ast.Raise) -> None:
+        self.stmt = stmt
+
+    def __repr__(self) -> str:
+        return 'raise@%d' % self.stmt.lineno
+
+
+class Undecided:
+    """outcome of an evaluation that met a statement it could not decide (after having run the earlier ones)"""
+
+    def __init__(self, at: ast.AST | None) -> None:
+        self.at = at
+
+    def __repr__(self) -> str:
+        return 'undecided@%s' % getattr(self.at, 'lineno', '?')
+
+
+def eval_function(folder: Folder, fi: FuncInfo, args: dict[str, Any], max_steps: int = 500, on_unknown: Any = None, env_out: dict | None = None, body: list[ast.stmt] | None = None, outcomes: bool = False) -> Any:
     """`on_unknown(expr)` may supply the value of an expression the folder can not evaluate (the clock, say); `env_out`
     receives the final environment - an object passed as a dict ({'self': {...}}) shows the attributes that were stored."""
     env: dict[str, Any] = dict(args)
@@ -38,16 +64,18 @@ def eval_function(folder: Folder, fi: FuncInfo, args: dict[str, Any], max_steps:
         if v is UNKNOWN and on_unknown is not None:
             v = on_unknown(e)
         if v is UNKNOWN:
-            raise _Unknown()
+            raise _Unknown(e)
         return v
 
     def block(sts: list[ast.stmt]) -> None:
         for st in sts:
             steps[0] += 1
             if steps[0] > max_steps:
-                raise _Unknown()
+                raise _Unknown(st)
             if isinstance(st, ast.Return):
                 raise _Return(ev(st.value) if st.value is not None else None)
+            if isinstance(st, ast.Raise) and outcomes:
+                raise _Raise(st)
             if isinstance(st, (ast.Pass, ast.Assert)):
                 continue
             if isinstance(st, ast.Expr) and isinstance(st.value, ast.Constant):
@@ -59,12 +87,19 @@ def eval_function(folder: Folder, fi: FuncInfo, args: dict[str, Any], max_steps:
             if isinstance(st, (ast.Assign, ast.AnnAssign)):
                 tg = st.targets[0] if isinstance(st, ast.Assign) else st.target
                 if isinstance(st, ast.Assign) and len(st.targets) != 1:
-                    raise _Unknown()
+                    raise _Unknown(st)
                 if isinstance(tg, ast.Attribute) and isinstance(tg.value, ast.Name) and isinstance(env.get(tg.value.id), dict):
                     env[tg.value.id][tg.attr] = ev(st.value)  # type: ignore[arg-type]
                     continue
+                if isinstance(tg, (ast.Tuple, ast.List)) and all(isinstance(x, ast.Name) for x in tg.elts):
+                    vs = ev(st.value)  # type: ignore[arg-type]
+                    if not isinstance(vs, (tuple, list)) or len(vs) != len(tg.elts):
+                        raise _Unknown(st)
+                    for x, v_ in zip(tg.elts, vs):
+                        env[x.id] = v_  # type: ignore[attr-defined]
+                    continue
                 if not isinstance(tg, ast.Name):
-                    raise _Unknown()
+                    raise _Unknown(st)
                 env[tg.id] = ev(st.value)  # type: ignore[arg-type]
                 continue
             if isinstance(st, ast.AugAssign) and isinstance(st.target, ast.Name):
@@ -74,12 +109,14 @@ def eval_function(folder: Folder, fi: FuncInfo, args: dict[str, Any], max_steps:
             if isinstance(st, ast.If):
                 block(st.body if ev(st.test) else st.orelse)
                 continue
-            raise _Unknown()
+            raise _Unknown(st)
 
     try:
-        block(fi.node.body)
+        block(fi.node.body if body is None else body)
     except _Return as r:
         return r.value
-    except _Unknown:
-        return UNKNOWN
+    except _Raise as r:
+        return Raised(r.stmt)
+    except _Unknown as u:
+        return Undecided(u.at) if outcomes else UNKNOWN
     return None
